@@ -20,7 +20,7 @@ ASSUMPTIONS = [
     "duration replaced by 0 and by 2**31 - representative-per-path, NOT for-all",
     "job sequences: for every non-flexible structure every distinct permutation of every machine's job-id multiset is tried; 'admits a "
     "schedule' is decided independently: the i-th occurrence of job j on machine m is the job's i-th operation on m, and the union of job "
-    "chains and machine orders must be acyclic; a 5 s watchdog turns a hang into a violation",
+    "chains and machine orders must be acyclic; a step budget on the rebuilding loop's readiness tests (plus a 120 s alarm) turns a hang into a violation",
     "immutability: structural snapshot of the instance (jobs list identity, per-operation machines/duration/ids, name, metadata) before and "
     "after: dispatcher with all observers over a history, every named rule solver, the four graph builders (+ solved graph), "
     "SingleJobShopGraphEnv episode, Schedule.from_job_sequences/to_dict (the CP solver is not included: it cannot run on symbolic durations)",
@@ -302,8 +302,22 @@ def sequences_harness(eng, sp, inst, desc):
         eng.reachable("state")
         eng.reachable("transition")
         want = admits_schedule(desc, seqs)
+        # progress watchdog: a step budget on the readiness tests made by the rebuilding loop (load independent),
+        # backed by a 120 s wall-clock alarm
+        from job_shop_lib.dispatching import Dispatcher as _Disp
+
+        budget = [8 * desc.n_ops * (desc.n_machines + 1) + 50]
+        orig_ready = _Disp.is_operation_ready
+
+        def counted(self, operation, _orig=orig_ready):
+            budget[0] -= 1
+            if budget[0] < 0:
+                raise Hang()
+            return _orig(self, operation)
+
+        _Disp.is_operation_ready = counted
         old = signal.signal(signal.SIGALRM, _alarm)
-        signal.setitimer(signal.ITIMER_REAL, 5.0)
+        signal.setitimer(signal.ITIMER_REAL, 120.0)
         try:
             got = Schedule.from_job_sequences(inst, [list(s) for s in seqs])
             err = None
@@ -320,6 +334,7 @@ def sequences_harness(eng, sp, inst, desc):
         finally:
             signal.setitimer(signal.ITIMER_REAL, 0)
             signal.signal(signal.SIGALRM, old)
+            _Disp.is_operation_ready = orig_ready
         key = "C14/job-sequences"
         if err == "hang":
             eng.fail(key + "/hang", f"{seqs}")
